@@ -14,6 +14,11 @@ import (
 	"strings"
 	"testing"
 
+	"github.com/grafana/codejen"
+	"github.com/grafana/cog/internal/ast"
+	"github.com/grafana/cog/internal/ast/compiler"
+	"github.com/grafana/cog/internal/codegen"
+	"github.com/grafana/cog/internal/languages"
 	"github.com/grafana/cog/verifharness/e2"
 	"github.com/grafana/cog/verifharness/smodel"
 	"github.com/grafana/cog/verifharness/vlib"
@@ -173,39 +178,223 @@ func fileClass(path string) string {
 	return lang + ":" + kind
 }
 
-func c03Check(c pipeCase) []vlib.Violation { return c03CheckN(nil, c, 4) }
+// c03Case is a pipeline with the parts only C03 generates: hand-rendered
+// inputs, veneer files laid out in named directories. (A replay file in the
+// older format - a bare pipeCase - still decodes.)
+type c03Case struct {
+	pipeCase
+	// Family: "" / "pipeline" (general pipelines), "values", "veneers"
+	Family string `json:"family,omitempty"`
+	// RawInputs: inputs given as text (after the ones of Inputs)
+	RawInputs []e2.InputSpec `json:"raw_inputs,omitempty"`
+	// VeneerDirs: the entries of `transformations.builders`, in configuration
+	// order, each with its files
+	VeneerDirs []c03VeneerDir `json:"veneer_dirs,omitempty"`
+	// Inspect: the languages `cog inspect --language` is run for (besides no
+	// language at all)
+	Inspect []string `json:"inspect,omitempty"`
+	Labels  []string `json:"labels,omitempty"`
+}
 
-func c03CheckN(run *vlib.Run, c pipeCase, repeats int) []vlib.Violation {
+func (c c03Case) allInputSpecs() []e2.InputSpec {
+	return append(c.pipeCase.inputSpecs(), c.RawInputs...)
+}
+
+// dummyLanguage is what `cog inspect` uses when no --language is given.
+type dummyLanguage struct{}
+
+func (dummyLanguage) Name() string { return "dummy" }
+func (dummyLanguage) Jennies(_ languages.Config) *codejen.JennyList[languages.Context] {
+	return nil
+}
+func (dummyLanguage) CompilerPasses() compiler.Passes { return nil }
+
+type c03Outcome struct {
+	files map[string]string // path -> sha256
+	// ir: what `cog inspect` shows. "types" is the IR common to all languages;
+	// "types:<l>" / "builders:<l>" the IRs for one language ("dummy": none)
+	ir       map[string]string
+	irJSON   map[string][]byte
+	content  map[string][]byte // debugging aid (VERIF_DEBUG_DIR)
+	err      string
+	panicked bool
+}
+
+// c03Pipeline builds the pipeline of the case from scratch.
+func c03Pipeline(work string, c c03Case, inputs []e2.InputSpec, o e2.OutputSpec) (*codegen.Pipeline, error) {
+	pl, err := e2.NewPipeline(work, "x/%l", inputs, o)
+	if err != nil {
+		return nil, err
+	}
+	for _, d := range c.VeneerDirs {
+		dir := filepath.Join(work, "cfg", d.Name)
+		if err := os.MkdirAll(dir, 0o755); err != nil {
+			return nil, err
+		}
+		for _, f := range d.Files {
+			if err := os.WriteFile(filepath.Join(dir, f.Name), []byte(f.Content), 0o644); err != nil {
+				return nil, err
+			}
+		}
+		pl.Transforms.VeneersDirectories = append(pl.Transforms.VeneersDirectories, dir)
+	}
+	return pl, nil
+}
+
+// c03RunOnce does what `cog inspect` (types, then types and builders per
+// inspected language) and `cog generate` do, each from a pipeline built from
+// scratch.
+func c03RunOnce(work string, c c03Case, inputs []e2.InputSpec, o e2.OutputSpec) c03Outcome {
+	out := c03Outcome{files: map[string]string{}, ir: map[string]string{}}
+	debug := os.Getenv("VERIF_DEBUG_DIR") != ""
+	if debug {
+		out.irJSON = map[string][]byte{}
+	}
+	record := func(key string, v any) {
+		raw, _ := json.Marshal(v)
+		out.ir[key] = hashBytes(raw)
+		if debug {
+			out.irJSON[key] = raw
+		}
+	}
+	_, msg, panicked := vlib.Guard(func() {
+		for i, lang := range append([]string{"dummy"}, c.Inspect...) {
+			pl, err := c03Pipeline(work, c, inputs, o)
+			if err != nil {
+				out.err = err.Error()
+				return
+			}
+			schemas, err := e2.LoadSchemas(pl)
+			if err != nil {
+				out.err = "load: " + err.Error()
+				return
+			}
+			if i == 0 {
+				record("types", schemas)
+			}
+			var language languages.Language = dummyLanguage{}
+			if lang != "dummy" {
+				all, err := pl.OutputLanguages()
+				if err != nil {
+					out.err = err.Error()
+					return
+				}
+				if language = all[lang]; language == nil {
+					continue
+				}
+			}
+			ctx, err := pl.ContextForLanguage(language, schemas)
+			if err != nil {
+				out.err = "inspect " + lang + ": " + err.Error()
+				return
+			}
+			record("types:"+lang, ctx.Schemas)
+			builders := ctx.Builders
+			if c.hasComposeVeneer() && os.Getenv("VERIF_C03_LENIENT_COMPOSE") != "" {
+				// The order of the builders in `cog inspect --ir builders` used to
+				// change from run to run with a `compose` veneer (ComposeBuilders
+				// ranged over a map): repaired in cog (fix 053ea48), so the order is
+				// compared. VERIF_C03_LENIENT_COMPOSE=1 compares them as a set again.
+				builders = append(ast.Builders{}, builders...)
+				sort.SliceStable(builders, func(i, j int) bool {
+					if builders[i].Package != builders[j].Package {
+						return builders[i].Package < builders[j].Package
+					}
+					return builders[i].Name < builders[j].Name
+				})
+			}
+			record("builders:"+lang, builders)
+		}
+		pl, err := c03Pipeline(work, c, inputs, o)
+		if err != nil {
+			out.err = err.Error()
+			return
+		}
+		files, err := e2.Run(pl)
+		if err != nil {
+			out.err = err.Error()
+			return
+		}
+		for p, content := range files {
+			out.files[p] = hashBytes(content)
+		}
+		if debug {
+			out.content = files
+		}
+	})
+	if panicked {
+		out.panicked = true
+		out.err = "panic: " + firstLine(msg)
+	}
+	return out
+}
+
+func c03Check(c c03Case) []vlib.Violation { return c03CheckN(nil, c, 6) }
+
+func c03CheckN(run *vlib.Run, c c03Case, repeats int) []vlib.Violation {
 	var out []vlib.Violation
 	work := workDir("c03")
 	defer removeAll(work)
-	inputs := c.inputSpecs()
+	inputs := c.allInputSpecs()
 	o := c.spec(c.Languages)
-	first := runPipe(filepath.Join(work, "in"), inputs, o, true)
+	if dir := os.Getenv("VERIF_DEBUG_DIR"); dir != "" {
+		// debugging aid: the case being run (a run that never returns leaves it behind)
+		_ = os.MkdirAll(dir, 0o755)
+		raw, _ := json.Marshal(map[string]any{"property": "C03", "case": c})
+		_ = os.WriteFile(filepath.Join(dir, fmt.Sprintf("current_%d.json", os.Getpid())), raw, 0o644)
+	}
+	first := c03RunOnce(filepath.Join(work, "in"), c, inputs, o)
 	if first.panicked {
+		// (panics are C04's matter)
 		count(run, "skipped_panics", 1)
+		count(run, "skipped_panics:"+c.family(), 1)
+		note(run, "run panics (%s family): %s", c.family(), errSummary(first.err))
 		return nil
 	}
 	if first.err == "" {
 		count(run, "programs", 1)
+		count(run, "programs:"+c.family(), 1)
+		if c.hasComposeVeneer() {
+			count(run, "compose_veneer_builders_ir_order_compared", 1)
+		}
 	} else {
 		count(run, "rejected", 1)
+		count(run, "rejected:"+c.family(), 1)
 		note(run, "run reports an error: %s", errSummary(first.err))
 	}
 	for r := 1; r < repeats; r++ {
-		again := runPipe(filepath.Join(work, "in"), inputs, o, true)
+		again := c03RunOnce(filepath.Join(work, "in"), c, inputs, o)
 		count(run, "reruns", 1)
 		if (again.err == "") != (first.err == "") {
 			out = append(out, vlib.V("outcome-differs", "run 1: %q, run %d: %q", firstLine(first.err), r+1, firstLine(again.err)))
 			break
 		}
-		if first.irHash != again.irHash {
+		var irKeys []string
+		for k := range first.ir {
+			irKeys = append(irKeys, k)
+		}
+		sort.Strings(irKeys)
+		for _, k := range irKeys {
+			if first.ir[k] == again.ir[k] {
+				continue
+			}
 			if dir := os.Getenv("VERIF_DEBUG_DIR"); dir != "" {
 				_ = os.MkdirAll(dir, 0o755)
-				_ = os.WriteFile(filepath.Join(dir, "ir_a.json"), first.irJSON, 0o644)
-				_ = os.WriteFile(filepath.Join(dir, "ir_b.json"), again.irJSON, 0o644)
+				name := strings.ReplaceAll(k, ":", "_")
+				_ = os.WriteFile(filepath.Join(dir, "ir_"+name+"_a.json"), first.irJSON[k], 0o644)
+				_ = os.WriteFile(filepath.Join(dir, "ir_"+name+"_b.json"), again.irJSON[k], 0o644)
 			}
-			out = append(out, vlib.V("ir-differs", "the IR shown by `cog inspect` differs between run 1 and run %d of the same pipeline", r+1))
+			if k == "types" {
+				// (the signature of the check as first built)
+				out = append(out, vlib.V("ir-differs", "the IR shown by `cog inspect` differs between run 1 and run %d of the same pipeline", r+1))
+				continue
+			}
+			what, lang, _ := strings.Cut(k, ":")
+			flag := " --language " + lang
+			if lang == "dummy" {
+				flag = ""
+			}
+			out = append(out, vlib.V("ir-differs:"+k, "the %s IR shown by `cog inspect --ir %s%s` differs between run 1 and run %d of the same pipeline", what, what, flag, r+1))
 		}
 		onlyA, onlyB, changed := diffFiles(first.files, again.files)
 		seen := map[string]bool{}
@@ -219,6 +408,12 @@ func c03CheckN(run *vlib.Run, c pipeCase, repeats int) []vlib.Violation {
 			if !contains(changed, p) {
 				what = "presence"
 			}
+			if dir := os.Getenv("VERIF_DEBUG_DIR"); dir != "" {
+				_ = os.MkdirAll(dir, 0o755)
+				name := strings.ReplaceAll(p, "/", "_")
+				_ = os.WriteFile(filepath.Join(dir, "a_"+name), first.content[p], 0o644)
+				_ = os.WriteFile(filepath.Join(dir, "b_"+name), again.content[p], 0o644)
+			}
 			out = append(out, vlib.V("files-differ:"+what+":"+cls, "run 1 and run %d of the same pipeline disagree on %s (%s); %d paths differ in all", r+1, p, what, len(onlyA)+len(onlyB)+len(changed)))
 		}
 		if len(out) > 0 {
@@ -226,10 +421,34 @@ func c03CheckN(run *vlib.Run, c pipeCase, repeats int) []vlib.Violation {
 		}
 	}
 	if run != nil && first.err == "" {
-		h := vlib.HashBytes([]byte(fmt.Sprint(inputs)), []byte(strings.Join(onFlags(c.Config), ",")), []byte(strings.Join(c.Languages, ",")))
+		h := vlib.HashBytes([]byte(fmt.Sprint(inputs)), []byte(strings.Join(onFlags(c.Config), ",")), []byte(strings.Join(c.Languages, ",")), []byte(fmt.Sprint(c.VeneerDirs)))
 		run.Eval(h, "deterministic-run")
 	}
 	return dedupeViolations(out)
+}
+
+// hasComposeVeneer: one of the veneer files holds a `compose` builder rule.
+func (c c03Case) hasComposeVeneer() bool {
+	for _, v := range c.Config.Veneers {
+		if strings.Contains(v, "- compose:") {
+			return true
+		}
+	}
+	for _, d := range c.VeneerDirs {
+		for _, f := range d.Files {
+			if strings.Contains(f.Content, "- compose:") {
+				return true
+			}
+		}
+	}
+	return false
+}
+
+func (c c03Case) family() string {
+	if c.Family == "" {
+		return "pipeline"
+	}
+	return c.Family
 }
 
 func contains(list []string, s string) bool {
@@ -415,31 +634,183 @@ func pipeLabels(run *vlib.Run, c pipeCase) {
 	}
 }
 
+// drawC03PipelineCase: a general pipeline (drawPipeCase, shared with C07); two
+// thirds of those that generate builders from a model get their veneers laid
+// out as files of directories: the chained renames of drawVeneers first, then
+// a sequence of rules drawn against the entry's package.
+func drawC03PipelineCase(rt *rapid.T) c03Case {
+	c := c03Case{pipeCase: drawPipeCase(rt, 3, 1), Family: "pipeline"}
+	if len(c.Inputs) > 0 && c.Inputs[0].Raw == composableDashboard && rapid.Bool().Draw(rt, "composetwo") {
+		composeSecondObject(&c)
+	}
+	if c.Config.Builders && len(c.Inputs) > 0 && c.Inputs[0].Meta == nil && rapid.IntRange(0, 2).Draw(rt, "veneerlayout") != 0 {
+		if m := miniFromSModel(c.Inputs[0]); m != nil {
+			dirs, labels := drawVeneerLayout(rt, m, c.Languages, rapid.IntRange(2, 12).Draw(rt, "nrules"))
+			var base []c03VeneerFile
+			for i, content := range c.Config.Veneers {
+				base = append(base, c03VeneerFile{Name: fmt.Sprintf("00-base-%02d.yaml", i), Content: content})
+			}
+			dirs[0].Files = append(base, dirs[0].Files...)
+			c.Config.Veneers = nil
+			c.VeneerDirs = dirs
+			c.Labels = append(c.Labels, labels...)
+		}
+	}
+	c.Inspect = drawInspect(rt, c.Languages)
+	return c
+}
+
+const composableDashboardTwo = `package dashboard
+
+Panel: {
+	type: string
+	title?: string
+	options?: _
+	fieldConfig?: {
+		defaults?: {
+			unit?: string
+			custom?: _
+		}
+	}
+}
+`
+
+// composeSecondObject turns the composable set-up into the one Grafana's SDK
+// has: the plugins also define a FieldConfig object (a second struct of the
+// plugin's model, renamed) and the compose veneer's `composition_map` gets a
+// second entry leading three fields down.
+func composeSecondObject(c *c03Case) {
+	n := 0
+	for _, in := range c.Inputs[1:] {
+		if in.Model == nil || in.Model.Def("FieldConfig") != nil {
+			continue
+		}
+		for _, d := range in.Model.Defs {
+			if d.Type.Kind == smodel.KStruct && d.Name != "Options" && d.Name != in.Model.Entry {
+				in.Model.RenameDef(d.Name, "FieldConfig")
+				n++
+				break
+			}
+		}
+	}
+	if n == 0 {
+		return
+	}
+	c.Inputs[0].Raw = composableDashboardTwo
+	for i, v := range c.Config.Veneers {
+		c.Config.Veneers[i] = strings.Replace(v, "        Options: options\n", "        Options: options\n        FieldConfig: fieldConfig.defaults.custom\n", 1)
+	}
+	c.Labels = append(c.Labels, fmt.Sprintf("compose:composition_map:2(plugins:%d)", n))
+}
+
+// drawInspect: up to two of the case's languages get their own `cog inspect`.
+func drawInspect(rt *rapid.T, langs []string) []string {
+	n := rapid.IntRange(0, min(2, len(langs))).Draw(rt, "ninspect")
+	out := append([]string{}, rapid.Permutation(langs).Draw(rt, "inspect")[:n]...)
+	sort.Strings(out)
+	return out
+}
+
+func drawC03FocusedCase(rt *rapid.T) c03Case {
+	var c c03Case
+	if rapid.Bool().Draw(rt, "family") {
+		c = drawValuesCase(rt)
+	} else {
+		c = drawVeneersCase(rt)
+	}
+	c.Inspect = drawInspect(rt, c.Languages)
+	return c
+}
+
+func c03Sample(c c03Case) map[string]any {
+	s := pipeSample(c.pipeCase)
+	s["family"] = c.family()
+	if len(c.RawInputs) > 0 {
+		inputs, _ := s["inputs"].([]string)
+		for _, in := range c.RawInputs {
+			inputs = append(inputs, fmt.Sprintf("%s %s (rendered by the family generator, %d bytes, %d transformation files)", in.Format, in.Package, len(in.Source), len(in.Transforms)))
+		}
+		s["inputs"] = inputs
+	}
+	if len(c.VeneerDirs) > 0 {
+		var dirs []string
+		n := 0
+		for _, d := range c.VeneerDirs {
+			var names []string
+			for _, f := range d.Files {
+				names = append(names, f.Name)
+			}
+			n += len(d.Files)
+			dirs = append(dirs, d.Name+"/{"+strings.Join(names, ",")+"}")
+		}
+		s["veneer_dirs"] = dirs
+		s["veneer_files"] = n
+	}
+	s["inspect"] = append([]string{"(no language)"}, c.Inspect...)
+	return s
+}
+
+func c03Labels(run *vlib.Run, c c03Case) {
+	pipeLabels(run, c.pipeCase)
+	run.Label("family:" + c.family())
+	run.Label(c.Labels...)
+	for _, l := range c.Labels {
+		// regions left out by construction (genuine defects, reported)
+		if strings.HasPrefix(l, "excluded:") {
+			run.Count(l, 1)
+		}
+	}
+	for _, in := range c.RawInputs {
+		run.Label("input:" + string(in.Format))
+		if len(in.Transforms) > 0 {
+			run.Label("input-transformation")
+		}
+	}
+	run.Label(fmt.Sprintf("inspected-languages:%d", len(c.Inspect)))
+}
+
 func TestC03(t *testing.T) {
 	run := vlib.Begin(t, "C03")
 	defer run.Finish(t)
-	repeats := 5
+	repeats := 6
 	if vlib.Thorough() {
 		repeats = 12
 	}
 	run.Describe(
-		fmt.Sprintf("Each rapid case is a whole pipeline: 1-3 inputs of distinct packages in any of the three formats (unions whose variants carry several candidate discriminator constants, named unions, nested collections, enums, defaults, OpenAPI inputs split over two packages), an output configuration (types/builders/converters/api_reference and every per-language flag) and a non-empty subset of the seven output languages. The pipeline is rebuilt from the same description and run %d times in one process; Go re-draws the iteration order of every map at every `range`, so each run samples another schedule. Oracle: the set of generated paths, the sha256 of every file, the sha256 of the JSON of the IR (`cog inspect`) and the success/error outcome are identical in all runs. Non-trivial: a pipeline that runs successfully; distinct by (inputs, flags, languages).", repeats),
+		fmt.Sprintf("Each rapid case is a whole pipeline of one of three families. (1) General pipelines: 1-3 inputs of distinct packages in any of the three formats (unions whose variants carry several candidate discriminator constants, named unions, nested collections, enums, defaults, OpenAPI inputs split over two packages), the composable set-up (dashboard.Panel + 2-3 panelcfg plugin packages + a compose veneer), input and common transformation files, an output configuration (types/builders/converters/api_reference and every per-language flag) and a non-empty subset of the seven output languages; two thirds of those with builders get veneer files laid out in 1-3 directories (below). (2) Compound values: a small CUE package of 2-4 structs referring to each other, with map-typed (`[string]: T`), list, `_` and scalar members, where every place cog takes a value gets maps of 2-12 entries, maps in maps, lists of maps: struct defaults on references (`Options | *{...}`), `fields_set_default` on map / struct / any fields, constants of `initialize`, `add_option` and `add_assignment` veneers; 1-4 transformation files whose passes feed each other across files (duplicate_object -> rename_object -> fields_set_default on the renamed copy). (3) Veneer layouts: 4-24 builder rules (omit, rename, duplicate, merge_into with exclude_options and rename_options, initialize, promote_options_to_constructor, properties, add_option) and option rules (omit, rename, rename_arguments, duplicate, add_comments, add_assignment, unfold_boolean, array_to_append, map_to_index, struct_fields_as_arguments/options; selectors by_name / by_builder / by_names, exact or case-flipped, current or stale names) drawn against the EVOLVING builders, so that later rules select what earlier ones renamed, duplicated or merged; the sequence is cut into 1-12 files (`all` and per-language rule sets mixed, empty files in between) of 1-3 directories listed in any order; `rename_options` maps of 1-10 entries whose values are other keys (chains a->b->c, swaps), keys that differ by case only. Quick tier: one general and one focused (2 or 3) pipeline per rapid case; thorough: one pipeline per case (1/2 general, 1/4 each focused family). The pipeline is rebuilt from the same description and run %d times in one process; Go re-draws the iteration order of every map at every `range`, so each run samples another schedule. Oracle: the set of generated paths, the sha256 of every file, the success/error outcome, and the sha256 of the JSON of what `cog inspect` shows - the types IR, and the types and builders IRs (after veneers and nil-checks) without --language and for up to two of the case's languages, each from a pipeline built from scratch - are identical in all runs. Non-trivial: a pipeline that runs successfully; distinct by (inputs, flags, languages, veneer files).", repeats),
 		"error texts are not compared, only error vs success",
-		"a two-way order dependence escapes one case with probability 2^-(runs-1)",
-		"veneers are limited to option renames (a rule set for all languages chained with per-language ones); repository templates and compose veneers are not generated",
+		"a two-way order dependence escapes one case with probability 2^-(runs-1) when the map has more than 8 entries; a Go map of n <= 8 entries is walked from a random offset, two entries i < j swap with probability (j-i)/8 per walk, hence the many-entry maps, files and rule sets",
+		"the converters IR of `cog inspect --ir converters` is not compared (the generated converter files are)",
+		"three order dependences of cog this check met on the unchanged tree are repaired there (TypeScript map / struct values printed in Go map order; the builders IR order under a `compose` veneer; `fields_set_default` references applied in map order): maps of many entries, struct values and TypeScript are all drawn together now, the builders IR is compared in order; two `fields_set_default` keys matching the same field are still never drawn (the repaired order is by key text, which the generator has no model of)",
+		"not generated: repository templates; `parameters` interpolation (pipelines are built as values, not from a cog.yaml; Pipeline.interpolate ranges over the parameters map, a parameter whose value names another parameter is substituted or not depending on the run); promote_options_to_constructor on an option whose type leads back to the built object (PHP converter hang listed under C04)",
 	)
 	if vlib.RunReplay(t, run, c03Check) {
 		return
 	}
 	rapid.Check(t, func(rt *rapid.T) {
-		c := drawPipeCase(rt, 3, 1)
-		pipeLabels(run, c)
-		run.Sample(pipeSample(c))
-		if vs := c03CheckN(run, c, repeats); len(vs) > 0 {
-			vlib.Fail(rt, run.Judge(c, vs))
+		var cases []c03Case
+		if !vlib.Thorough() {
+			cases = []c03Case{drawC03PipelineCase(rt), drawC03FocusedCase(rt)}
+		} else if rapid.Bool().Draw(rt, "general") {
+			cases = []c03Case{drawC03PipelineCase(rt)}
+		} else {
+			cases = []c03Case{drawC03FocusedCase(rt)}
+		}
+		for _, c := range cases {
+			c03Labels(run, c)
+			run.Sample(c03Sample(c))
+			if vs := c03CheckN(run, c, repeats); len(vs) > 0 {
+				vlib.Fail(rt, run.Judge(c, vs))
+			}
 		}
 	})
-	if c := run.Counters(); c["programs"] == 0 && c["rejected"] > 0 {
+	c := run.Counters()
+	if c["programs"] == 0 && c["rejected"] > 0 {
 		run.Inconclusive("cog refused all %d generated pipelines", c["rejected"])
+	}
+	for _, family := range []string{"values", "veneers"} {
+		if ok, bad := c["programs:"+family], c["rejected:"+family]; bad > ok {
+			run.Inconclusive("cog refused %d of %d generated pipelines of the %s family: the generator is not testing what it claims", bad, ok+bad, family)
+		}
 	}
 }
